@@ -260,11 +260,13 @@ def project(raw_events, scenario, bound=None):
             o.update(e=kind, reason=ev.get("reason", ""), err=ev.get("err", ""), timeoutMs=ev.get("timeoutMs", 0))
         else:
             continue
-        if bound is not None and o["e"] not in bound:
-            continue
+        if bound is not None and o["e"] in bound:
+            continue        # `bound` lists the event kinds this check does NOT bind (e.g. {"Tel"})
         out.append(o)
-    if pending_lines is not None:
+    if pending_lines is not None and not (bound is not None and "Tel" in bound):
         out.append(pending_lines)
+    if bound is not None and "Tel" in bound:
+        out = [o for o in out if o["e"] != "Tel"]
     for o in out:
         if o["e"] == "Tel" and o["tk"] == "ExtensionInit":
             o["lines"].sort(key=lambda x: x["name"])
